@@ -209,6 +209,7 @@ def _worker_layer(args):
     layer, rank, nworkers, deadline, max_viol = args
     check = _W['check']
     tier = _W['tier']
+    _W.setdefault('tasks', []).append([layer, rank, nworkers])
     agg = {
         'cases': 0, 'evals': 0, 'checked': 0, 'states': 0, 'transitions': 0,
         'unspec': 0, 'nontrivial_keys': set(), 'outcomes':
@@ -251,6 +252,7 @@ def _worker_layer(args):
                 vv['case'] = case
                 vv['layer'] = layer
                 vv['index'] = i
+                vv['worker_tasks'] = [list(t) for t in _W['tasks']]
                 agg['violations'].append(vv)
     return agg
 
@@ -288,6 +290,52 @@ def replay_observation(pid, tier, case):
         p = subprocess.run([PYTHON, '-m', 'mc.run', pid, '--replay', path,
                             '--json'], capture_output=True, text=True,
                            cwd=VERIF, env=env, timeout=600)
+        for line in p.stdout.splitlines():
+            if line.startswith('OBSERVATION '):
+                return json.loads(line[len('OBSERVATION '):])
+        return {'error': (p.stdout + p.stderr)[-2000:]}
+    finally:
+        os.unlink(path)
+
+
+def run_history(check, tier, tasks, index):
+    """Re-execute, in this (fresh) process, exactly the sequence of cases a
+    worker executed: every (layer, rank, nworkers) task in order, the last one
+    up to and including case number `index`.  Returns (Res of that last case,
+    harness error).  Used when a violation does not reproduce on its own:
+    the code under test then depends on what ran before it in the process."""
+    check.setup_worker(tier)
+    last = None
+    try:
+        for ti, (layer, rank, nworkers) in enumerate(tasks):
+            final = ti == len(tasks) - 1
+            for i, case in enumerate(check.cases(tier, layer)):
+                if i % nworkers != rank:
+                    continue
+                r, herr = safe_run_case(check, case)
+                if herr is not None and final and i == index:
+                    return None, herr
+                if final and i == index:
+                    last = r
+                    break
+    finally:
+        check.teardown_worker()
+    return last, None
+
+
+def replay_history_observation(pid, tier, tasks, index):
+    import tempfile
+    fd, path = tempfile.mkstemp(prefix='mc_hist_', suffix='.json',
+                                dir=os.environ.get('VERIF_SCRATCH', '/var/tmp'))
+    with os.fdopen(fd, 'w') as f:
+        json.dump({'property': pid, 'tier': tier, 'history': tasks,
+                   'index': index}, f)
+    try:
+        env = dict(os.environ)
+        env['TDDA_SRC'] = TDDA_SRC
+        p = subprocess.run([PYTHON, '-m', 'mc.run', pid, '--replay', path,
+                            '--json'], capture_output=True, text=True,
+                           cwd=VERIF, env=env, timeout=7200)
         for line in p.stdout.splitlines():
             if line.startswith('OBSERVATION '):
                 return json.loads(line[len('OBSERVATION '):])
@@ -433,13 +481,32 @@ def explore(pid, tier, nworkers=None, budget_s=None, only_layers=None,
                           if _case_key(x['case']) == _case_key(v['case'])))
         o1 = replay_observation(pid, tier, v['case'])
         o2 = replay_observation(pid, tier, v['case'])
-        if o1 != o2 or 'error' in o1 or \
-                not set(tuple(x) for x in o1['sigs']) >= set(want):
-            print('HARNESS-ERROR: nondeterministic or irreproducible violation '
+        history = None
+        if o1 != o2 or 'error' in o1:
+            print('HARNESS-ERROR: nondeterministic replay of one case '
                   'sig=%s\n worker=%r\n replay1=%r\n replay2=%r'
                   % (sig, want, o1, o2))
             status = max(status, 2)
             continue
+        if not set(tuple(x) for x in o1['sigs']) >= set([(sig, v['clause'])]):
+            # Deterministically absent when the case runs alone in a fresh
+            # process: does it depend on the cases that ran before it in the
+            # worker?  Replay that exact history, twice, in fresh processes.
+            tasks = v.get('worker_tasks') or []
+            h1 = replay_history_observation(pid, tier, tasks, v['index'])
+            h2 = replay_history_observation(pid, tier, tasks, v['index'])
+            if h1 != h2 or 'error' in h1 or not \
+                    set(tuple(x) for x in h1['sigs']) >= set([(sig, v['clause'])]):
+                print('HARNESS-ERROR: irreproducible violation sig=%s\n '
+                      'worker=%r\n alone=%r\n history1=%r\n history2=%r'
+                      % (sig, want, o1, h1, h2))
+                status = max(status, 2)
+                continue
+            history = {'tasks': tasks, 'index': v['index'],
+                       'note': 'the violation appears only after the preceding '
+                               'cases of this worker ran in the same process '
+                               '(state shared across calls); absent when the '
+                               'case runs alone'}
         h = hashlib.sha1(sig.encode('utf-8')).hexdigest()[:10]
         path = os.path.join(REPLAY_DIR, pid, '%s.json' % h)
         with open(path, 'w') as f:
@@ -447,10 +514,16 @@ def explore(pid, tier, nworkers=None, budget_s=None, only_layers=None,
                        'clause': v['clause'], 'layer': v['layer'],
                        'case': v['case'], 'sub': v['sub'], 'detail': v['detail'],
                        'cases_with_this_sig': viol_counts[sig],
+                       'history': history['tasks'] if history else None,
+                       'index': v['index'],
+                       'history_note': history['note'] if history else None,
                        'tree': tree_id()}, f, indent=1, default=str,
                       ensure_ascii=False)
         print('VIOLATION property=%s replay=%s' % (pid, path))
-        print('  sig=%s clause=%s cases=%d' % (sig, v['clause'], viol_counts[sig]))
+        print('  sig=%s clause=%s cases=%d%s' % (
+            sig, v['clause'], viol_counts[sig],
+            ' HISTORY-DEPENDENT (reproduces only after the preceding cases '
+            'of its worker)' if history else ''))
         print('  detail=%s' % json.dumps(v['detail'], default=str,
                                          ensure_ascii=False)[:600])
         status = max(status, 1)
